@@ -328,8 +328,13 @@ def correspond(run, exe, ins, variants, T, oracle=None, stream="lexer"):
         if exe is None:
             continue
         mcases = corr.run_model(exe, ins, profile=profile, sep=sep, mode="lexa")
-        diffs = corr.compare(mcases, icases)
-        run.cov.setdefault("correspondence", {})[variant] = {"inputs": len(ins), "differences": len(diffs)}
+        view = corr.VIEWS.get(run.prop)
+        diffs = corr.compare(mcases, icases, view, str(T.tt.get("EOF", 0)))
+        run.cov.setdefault("correspondence", {})[variant] = {"inputs": len(ins), "differences": len(diffs),
+                                                             "compared": "whole dump" if view is None else "the observables the property reads: " + ", ".join(f"{k}{v if v else ''}" for k, v in view.items() if k != "only_ok")}
+        if view is not None:
+            full = corr.compare(mcases, icases)
+            run.cov["correspondence"][variant]["differences_outside_the_view"] = len(full) - len([d for d in diffs if d[0] in {f[0] for f in full}])
         run.cov["traces_validated_against_impl"] = run.cov.get("traces_validated_against_impl", 0) + len(ins) - len(diffs)
         run.cov["disagreements_checked"] = run.cov.get("disagreements_checked", 0) + len(diffs)
         flags = collections.Counter()
